@@ -28,7 +28,13 @@ FIXED += [
     # affine models with initial equations (reduce_affine_expression writes both lists over one set of state vectors)
     ("model G11 parameter Real x0 = 4.0; Real x; Real y; initial equation x = x0; equation der(x) = -2 * x; y = 3 * x + 1; end G11;", "G11"),
 ]
-MUST_SIMPLIFY = {"G0", "G1", "G2", "G3", "G4", "G5", "G6", "G7", "G8", "G9", "G10", "G11"}
+FIXED += [
+    # chains of eliminable helpers used before the equations that define them (equations are unordered): every order must resolve
+    ("model G12 parameter Real k = 0.5; Real x; Real _v1; Real _v2; Real _v3; equation der(x) = _v1; _v1 = k * _v2 + 1; _v2 = k * _v3 + 2; _v3 = k * x + 3; end G12;", "G12"),
+    ("model G13 parameter Real k = 0.5; Real x; Real _v1; Real _v2; Real _v3; Real _v4; equation _v2 = k * _v3 + 2; _v1 = k * _v2 + 1; der(x) = _v1; _v3 = k * _v4 + 3; _v4 = k * x + 4; end G13;", "G13"),
+    ("model G14 parameter Real k = 0.5; Real x; Real _v1; Real _v2; Real _v3; equation _v3 = k * x + 3; _v2 = k * _v3 + 2; _v1 = k * _v2 + 1; der(x) = _v1; end G14;", "G14"),
+]
+MUST_SIMPLIFY = {"G0", "G1", "G2", "G3", "G4", "G5", "G6", "G7", "G8", "G9", "G10", "G11", "G12", "G13", "G14"}
 
 
 def count(m):
